@@ -76,6 +76,10 @@ def curated():
     #    parser-list indexes for which sets were cached during the abandoned continuation (found by MCCache)
     c.append(entry("staleplace", [R(S, [A], 1, 1, [1]), R(S, [0, A], 2, 1, [2]), R(A, [A, B], 3, 1, [1, 2]), R(A, [B], 0, 0, [1]), R(B, [1, 2], 4, 1, [1, 2]), R(B, [3, B], 5, 1, [1, 2])],
                    maxlen=3, alphabet=[1, 2, 3], inputs=[[3, 3, 1, 2, 2, 3, 1, 2], [3, 1, 2, 2, 1, 2], [3, 3, 1, 2, 1, 3, 1, 2], [1, 2, 3, 3, 3, 2, 3, 1, 2]]))
+    # 17 a nullable nonterminal with a non-empty rule whose completed item is in one set both with origin at that
+    #    set and with an earlier origin (found by the thorough tier of C02: the translation of the empty A was dropped)
+    c.append(entry("nullanode", [R(S, [], 1, 1, []), R(A, [S, S], 2, 2, [2, 1]), R(S, [1, A], 1, 1, [1, 2])], maxlen=4, alphabet=[1]))
+    c.append(entry("nullanode2", [R(S, [], 1, 1, []), R(A, [S, S], 1, 1, [1, 2]), R(S, [A, 1], 0, 0, [1])], maxlen=4, alphabet=[1]))
     return c
 
 
